@@ -8,6 +8,16 @@ TB = ('Trusted: the pyvc verifier itself (AST->VC generator written for this tas
       'deterministic and non-mutating; loops: for-loop termination not proved (finite sources).')
 
 # id -> (claimed, category, text, note, technique)
+TECH_D = 'contract-based deductive verification (pyvc: symbolic execution of the real AST -> VCs, z3/cvc5) + bounded contract evaluation (bcheck)'
+TECH_B = 'bounded stand-in only so far: reference contract evaluated on the real functions over an exhaustively enumerated small scope (deductive contracts pending)'
+BNOTE = ('Bounded: holds for the enumerated scope only (stated in evidence coverage.bounded.bound); reference specifications '
+         'written from the property statement and petl documentation; NOT a proof.')
+
+
+def B(text):
+    return (True, 'exploration', text, BNOTE, TECH_B)
+
+
 P = {
  'C04': (True, 'proof',
          'Closed forms of Comparable.__lt__/__eq__/__le__/__gt__/__ge__ are extracted from the real AST by path enumeration '
@@ -16,9 +26,37 @@ P = {
          'the lexicographic lifting lemma covers sequences of all lengths. The use sites (sort, issorted, selectors, merge '
          'join) and T3/T4 are carried by the bounded stand-in over a 36-value alphabet (all pairs, triples).',
          TB + ' Nested values: wrap model + lemma Lex + structural induction on depth (schema stated, not machine-checked).',
-         'contract-based deductive verification (pyvc: AST->VC, z3/cvc5) + bounded contract evaluation'),
+         TECH_D),
+ 'C13': (True, 'proof',
+         'Each comparison selector (selecteq..selectge, the four ranges, none/notnone, true/false, is/isnot) is executed from the '
+         'real AST (selector -> selectop -> select -> FieldSelectView.__init__) and its where-closure is proved equal to the '
+         'documented predicate under the Comparable contract (C04) for ALL cell and reference values; wiring of field/complement/'
+         'missing proved. The filter loops, slicing, search, facet are carried by the bounded stand-in (tables <= 3 rows, all '
+         'slice triples).',
+         TB + ' Comparable is used through its contract (contracts/lib_order.py), itself discharged by C04.ladder.', TECH_D),
+ 'C01': B('All interleavings of next() on 2 (thorough: 3) live iterators with abandonment and a fresh pass, over the view constructors incl. the caching ones, vs the solo pass of an identical fresh view.'),
+ 'C02': B('Instrumented sources count pulled rows: 0 at construction (<= header for the named exceptions), pulls for k output rows identical for 100- and 10000-row sources, for the streaming operator catalogue and compositions.'),
+ 'C03': B('Deep snapshots of sources (lists of mutable lists, ragged) before/after full and partial iteration of the operator catalogue; every yielded row compared with its copy at the end.'),
+ 'C05': B('sort/mergesort vs sorted(enumerate(rows)) under the C04 reference ordering for all small tables x key forms x reverse x buffersize 1..n+1,None x cache x passes; mergesort == sort(cat).'),
+ 'C06': B('All pairs of small tables (None/mixed/compound keys, ragged, header-only, prefixes, missing) for the seven join operators vs a nested-loop relational reference: header, multiset, key order.'),
+ 'C07': B('Hash joins vs the relational reference and vs their sort-merge twins, cache on/off, two passes, streamed-side order; lookup family vs a reference dict incl. strict.'),
+ 'C08': B('complement/intersection/diff/record*/hash* vs collections.Counter arithmetic for all pairs of small rectangular tables; partition law.'),
+ 'C09': B('Grouping/aggregation operators vs a dictionary-based reference grouping (ascending key order, input order inside groups, conservation of counts and sums) x spec forms x buffersize/presorted.'),
+ 'C10': B('duplicates/unique/distinct/conflicts/isunique vs key-multiplicity reference for all small rectangular tables x key forms incl. header-only, zero-field.'),
+ 'C11': B('Every sort-backed operator x buffersize x cache x tempdir x config.sort_buffersize x presorted vs the default call; cache clause over (edit, iterate) histories with pull counting.'),
+ 'C12': B('Every field/row transform of the statement vs a cell-by-cell reference over positional tables with ragged rows, duplicate names, all selections and insertion indices.'),
+ 'C14': B('Reshape round trips (melt/recast, transpose, flatten/unflatten, dicts/columns) and cell-exact expansion operators over all small rectangular tables, key/variable splits, periods.'),
+ 'C15': B('to*/append*/from* round trips over a hostile cell alphabet x encodings x csv dialect arguments x source kinds x header flags; bytes of to+append == to(cat).'),
+ 'C16': B('Pass-through views yield exactly the wrapped rows; tee targets byte-identical to to*; cache() under all pass schedules and interleavings.'),
+ 'C17': B('sqlite3: prior contents x source failure at every row index x handle kind x commit flag for todb/appenddb, observed through a fresh connection; fromdb(todb(t)) == t.'),
+ 'C18': B('Private tempdir: every abandonment point / release order / source failure / pass count for buffered sorts and the fromdicts spill file; directory empty afterwards, surviving iterators complete.'),
+ 'C19': B('Every subset of failing positions x three policies x argument vs config default x errorvalue for convert/fieldmap/rowmap/rowmapmany vs the policy reference, stepped with next().'),
+ 'C20': B('Every public transform/util operator x every position of the header-only table x header shapes 0/1/3 fields: never raises, returns its zero-row definition.'),
 }
 REASON_NOT_YET = 'check not built yet in this round (work in progress; see DESIGN.md section 8)'
+
+
+PENDING = {'C02', 'C05', 'C11'}   # bounded modules still being triaged: not claimed until they are clean
 
 
 def main():
@@ -27,6 +65,9 @@ def main():
     for p in props:
         pid = p['id']
         e = P.get(pid)
+        if pid in PENDING:
+            na.append({'property_id': pid, 'reason': 'check exists but its failures on the unchanged tree are still being triaged (genuine defect vs reference error); not claimed until settled'})
+            continue
         if not e or not e[0]:
             na.append({'property_id': pid, 'reason': (e[2] if e else REASON_NOT_YET)})
             continue
